@@ -315,6 +315,25 @@ fn huge_zone(rng: &mut Rng, n: usize, ty: u16) -> ZoneCfg {
     ZoneCfg { kind: 'L', apex, class: 1, glue_wide: false, recs }
 }
 
+/// An MX RRset of `pairs` pairs of records sharing an exchange name (the second of a pair is written
+/// as a pointer to the first's exchange name), after one record whose exchange name is `pad` octets
+/// longer: over TCP the response passes 16 KiB and, for one `pad`, an exchange name starts exactly at
+/// offset 16384 — the first offset a 14-bit compression pointer cannot express (C02/C13).
+fn pointer_limit_zone(pad: usize, pairs: usize) -> (ZoneCfg, Vec<u8>) {
+    let apex = lname(&[b"pl"]);
+    let owner = prefixed(b"q", &apex);
+    let mut recs = vec![Rec { owner: apex.clone(), ty: 6, ttl: 60, rdata: soa_rdata(&apex, 10) }];
+    let mx = |pref: u16, ex: &[u8]| { let mut v = pref.to_be_bytes().to_vec(); v.extend_from_slice(ex); v };
+    let first = prefixed(&vec![b'p'; 1 + pad], &apex);
+    recs.push(Rec { owner: owner.clone(), ty: 15, ttl: 10, rdata: mx(0, &first) });
+    for k in 0..pairs {
+        let ex = prefixed(format!("e{:04}", k).as_bytes(), &apex);
+        recs.push(Rec { owner: owner.clone(), ty: 15, ttl: 10, rdata: mx(1, &ex) });
+        recs.push(Rec { owner: owner.clone(), ty: 15, ttl: 10, rdata: mx(2, &ex) });
+    }
+    (ZoneCfg { kind: 'L', apex, class: 1, glue_wide: false, recs }, owner)
+}
+
 // ------------------------------------------------------------------------------------------
 // requests
 // ------------------------------------------------------------------------------------------
@@ -674,6 +693,49 @@ pub fn gen(rng: &mut Rng, thorough: bool, em: &mut Emitter) {
                     emit_all(em, &zs, 1232, &cat, &server, &m, edns.is_none());
                 }
             }
+        }
+    }
+    // 5. reservation boundaries: OPT + TSIG on requests whose question, reserved OPT record and reserved
+    //    TSIG record together sit exactly around the negotiated UDP limit (the writer's `available` vs
+    //    `limit` bookkeeping: a TSIG reservation must not overlap the OPT reservation)
+    {
+        let zs = vec![odd_zone(rng)];
+        if let Some(server) = make_server(&zs, 4096) {
+            let cat = enc_catalog(&zs);
+            let combos: &[(usize, usize, &[u8])] = &[
+                (255, 255, b"hmac-sha256"), (255, 255, b"hmac-sha1"), (255, 230, b"hmac-sha256"),
+                (200, 255, b"hmac-sha256"), (255, 250, b"hmac-sha384"),
+            ];
+            for (ql, kl, alg) in combos.iter().take(if thorough { 5 } else { 3 }) {
+                let qname = long_name(*ql, &[0], b'q');
+                let key = long_name(*kl, &[0], b'k');
+                let algn = lname(&[alg]);
+                for mac in [0usize, 32] {
+                    // question + TSIG record with an empty MAC (error replies) or a full one
+                    let base = 12 + qname.len() + 4 + key.len() + 10 + algn.len() + 16;
+                    let lo = base.saturating_sub(4).max(512);
+                    for pay in lo..=(base + mac + 11 + 4) {
+                        let mut m = dns::header(rng.next() as u16, 0x0100, 1, 0, 0, 2);
+                        m.extend(dns::question(&qname, 1, 1));
+                        m.extend(dns::rr(&[0], 41, pay as u16, 0, &[]));
+                        m.extend(tsig_rr(&key, &algn, mac, 1_700_000_000, 7));
+                        emit_all(em, &zs, 4096, &cat, &server, &m, false);
+                    }
+                }
+            }
+        }
+    }
+    // 6. a name at offset 16384 (pad 28 by the layout arithmetic; neighbours for safety, the whole
+    //    residue class in the thorough tier)
+    {
+        let pads: Vec<usize> = if thorough { (0..38).collect() } else { vec![27, 28, 29] };
+        for pad in pads {
+            let (z, owner) = pointer_limit_zone(pad, 440);
+            let zs = vec![z];
+            let Some(server) = make_server(&zs, 1232) else { continue };
+            let cat = enc_catalog(&zs);
+            let m = query(rng.next() as u16, &owner, 15, 1, None);
+            emit_all(em, &zs, 1232, &cat, &server, &m, false);
         }
     }
     // 4. RRsets overflowing the 65535-octet TCP limit
